@@ -233,12 +233,62 @@ def norm_state(x):
     return C.norm_ids_deep(s)
 
 
+def key_press_generate(res):
+    """the key-press table translated from the source (Gen/KeyTab.v) and what the library says a key press stands for, for
+    every key code 0-255 (and a few beyond) with every modifier combination (Gen/KeyPressObs.v)"""
+    from gen import keys as GK
+    from gen.coqfmt import HEADER, clist, cstr
+    from . import c08
+    src = C.read(os.path.join(C.REPO, "src", "navigate.rs"))
+    tab, names = C.translate(res, "c11-keys", "key_press_to_command_and_param and navigation_command_string of navigate.rs",
+                             lambda: (GK.key_table(src), c08.nav_commands()))
+    C.write_if_changed(os.path.join(C.GEN, "KeyTab.v"), GK.render(tab, names))
+    keys = list(range(256)) + [256, 0x3039, 65535, 10 ** 9]
+    ops = [["v_key_command", k, bool(m & 1), bool(m & 2), bool(m & 4), bool(m & 8)] for k in keys for m in range(16)]
+    rr = C.one_session(ops)["res"]
+    rows = []
+    for op, o in zip(ops, rr):
+        out = "OCommand %s" % cstr(o["ok"]) if "ok" in o else ("OPanic" if "panic" in o else "OErr")
+        rows.append((op[1:], o))
+    body = HEADER + "Inductive kobs := OErr | OPanic | OCommand (s : list N).\nDefinition key_press_obs : list (N * bool * bool * bool * bool * kobs) := " + \
+        clist(("(%d, %s, %s, %s, %s, %s)" % (a[0], *(str(x).lower() for x in a[1:]),
+                                              "OCommand %s" % cstr(o["ok"]) if "ok" in o else ("OPanic" if "panic" in o else "OErr")) for a, o in rows), per_line=4) + ".\n"
+    C.write_if_changed(os.path.join(C.GEN, "KeyPressObs.v"), body)
+    if res is not None:
+        res.extra["key_press_tie_cases"] = len(rows)
+        res.extra["key_press_tie_commands"] = sum(1 for _, o in rows if "ok" in o)
+    return rows
+
+
+def key_press_search(res, rows, pid):
+    """a key press that panics, or that stands for a command the navigation does not know"""
+    from . import c08
+    names = set(c08.nav_commands()) | {"Error"}
+    n = 0
+    for a, o in rows:
+        what = None
+        if "panic" in o:
+            what = "panics: %s" % o["panic"][:160]
+        elif "ok" in o and o["ok"] not in names:
+            what = "stands for %r, which is not a navigation command" % o["ok"]
+        if what and (pid == "C08" or "panic" not in o):
+            res.violation("do_navigate_keypress(%d, shift=%s, control=%s, alt=%s, meta=%s) %s" % (a[0], a[1], a[2], a[3], a[4], what),
+                          {"kind": "keypress", "key": a, "what": what, "ops": [["set_rules_dir", C.RULES], ["set_mathml", X.math("<mi>x</mi>")], ["do_navigate_keypress"] + list(a)]})
+            n += 1
+            if n >= 3:
+                break
+    return n
+
+
 def generate(res):
     src = C.read(os.path.join(C.REPO, "src", "navigate.rs"))
     cmds, maxm = parse_commands(src)
     ok, log = C.build_harness()
     if not ok:
         raise RuntimeError("harness build failed: " + log)
+    res_rows = key_press_generate(res)
+    if res is not None:
+        res.key_press_rows = res_rows
     seed = res.seed if res else 1
     tier = res.tier if res else "quick"
     rng = random.Random(seed * 9176 + 11)
@@ -454,8 +504,8 @@ def run(res):
     key_rows = key_observations(res)
 
     def on_broken(log):
-        return property_oracle(res, traces) + (key_search(res, key_rows) if "KeyMapTie" in log else 0) > 0
-    proved = C.check_proofs(res, "C11", ["Props/C11.vo", "Tie/C11Tie.vo", "Tie/KeyMapTie.vo"], "Props/C11.v", search=on_broken)
+        return property_oracle(res, traces) + (key_search(res, key_rows) if "KeyMapTie" in log else 0) + key_press_search(res, getattr(res, "key_press_rows", []), "C11") > 0
+    proved = C.check_proofs(res, "C11", ["Props/C11.vo", "Tie/C11Tie.vo", "Tie/KeyMapTie.vo", "Tie/KeyPressTie.vo"], "Props/C11.v", search=on_broken)
     if proved:
         property_oracle(res, traces)
     res.trusted += ["navigation rules (navigate.yaml + XPath): an oracle in the model; their outcomes are taken from the hook log in the tie"]
